@@ -28,6 +28,23 @@ FIRST = {
  'C14c': ('anticipated miss', 'no query producing a reply above 9000 bytes and no watchdog around the handlers; added many-question datagrams, a 20 s handler watchdog and the global hang monitor'),
  'C15c': ('anticipated miss', 'announcements never carried foreign records in the additional section next to a genuine instance; added that event'),
  'C19c': ('anticipated miss', 'no two keys differing only in letter case; added'),
+ # round 4: changes built to need something outside a small scope
+ 'C01d': ('missed', 'no EDNS option with code 12 and an all-zero payload; every option code 0..=65535 x 6 payloads x 3 placements added (R5), every TYPE code x classes x generic bodies (R6)'),
+ 'C02d': ('missed', 'no name with 64 or more labels; full size sweep added (every label count 1..=127, label length, name length, string and tail length, list size)'),
+ 'C04d': ('missed by C04 (caught by C19)', 'TXT was only built string by string; constructor family added (TXT::try_from(&str) at every length 0..=1400, from maps, from string lists)'),
+ 'C05d': ('missed by C05 (caught by C03, C06)', 'no owner name needing more than 128 decoding steps; many-step name messages added to C05 with acceptance required when the walker succeeds'),
+ 'C06d': ('missed', 'pointer chains stopped at a few hops; chains of every length 1..=2100 (8100 thorough) added, through the hook and inside messages, with every RDATA name compared'),
+ 'C07d': ('missed', 'no message with more than 256 distinct name suffixes; packets with 2..400 distinct names each used twice added'),
+ 'C08d': ('missed by C08 (caught by C04)', 'C08 serialised into vectors only; writers taking 1..13 bytes per call and fixed buffers of 0..11 bytes added'),
+ 'C11d': ('missed by C11 (caught by C04)', 'C11 re-serialised through the vector-returning calls only; every accepted input is now also re-emitted into a fixed datagram buffer and a recycled vector'),
+ 'C13d': ('missed', 'no owner label of 256 or more bytes; odd-world stores added (over-long, binary and dotted labels, the root, SRV at 1- and 2-label owners) and stores of 10..300 hosts'),
+ 'C14d': ('missed by C14 (C13 odd world caught it once added)', 'no query for _services._dns-sd._udp.local against a store with a two-label SRV owner; odd and 120-record store kinds and queries for every name of those worlds added'),
+ 'C15d': ('missed', 'escape/unescape ran over {a, ., \\} only; every Unicode scalar value added'),
+ 'C16d': ('missed', 'instance names were plain; all ordered pairs over ~300 InstanceInformation values (escapes, case, dots, spaces, non-ASCII, ports, addresses, attributes) added'),
+ 'C17d': ('missed', 'no name whose first label ends with a length byte plus the bytes of the parent label; wire-suffix family for every label length added'),
+ 'C18d': ('missed', 'parsed records used the canonical RDATA of each type in class IN/CH; every TYPE code x 7 CLASS fields x ~20 RDATA bodies now parsed and the reported type/class compared with the wire'),
+ 'C19d': ('missed', 'at most 3 attribute strings; lists of 5..300 strings with duplicate and bare keys added (in memory, over the wire, long_attributes)'),
+ 'C20d': ('missed', 'at most a handful of records per name; stores of 1..500 records in one bucket with the authoritative record first / middle / last added'),
 }
 def load_jsonl(pattern):
     out = {}
